@@ -26,6 +26,46 @@ def fns(facts):
     return [f for f in facts.crate(ST).fns if not roles.is_derived(f) or " as std::cmp::PartialEq>::eq" in f.path]
 
 
+
+def _st_callees(facts, path):
+    """state-tree functions called from `path` and its closures"""
+    out = set()
+    for g in facts.family(ST, path):
+        for _, t in g.calls():
+            c = callee(t) or ""
+            h = facts.fn(c) if c.startswith(ST + "::") else None
+            if h is not None:
+                out.add(h.root)
+    return out
+
+
+def reaches_itself(facts, path):
+    """is the function recursive, directly or through helpers of the crate (an extracted loop, a phase split off)?"""
+    seen = set()
+    work = list(_st_callees(facts, path))
+    while work:
+        p = work.pop()
+        if p == path:
+            return True
+        if p in seen:
+            continue
+        seen.add(p)
+        work.extend(_st_callees(facts, p))
+    return False
+
+
+def recursion_members(facts, path):
+    """the function, the helpers on its recursion cycle, and all their closures"""
+    mem = {path}
+    for p in _st_callees(facts, path):
+        if p != path and (path in _st_callees(facts, p) or any(path in _st_callees(facts, q) for q in _st_callees(facts, p))):
+            mem.add(p)
+    out = []
+    for p in sorted(mem):
+        out.extend(facts.family(ST, p))
+    return out
+
+
 def constructions(fs, adt):
     out = []
     for f in fs:
@@ -44,7 +84,7 @@ def rule_patch_sites(ck, facts):
     # role: the recursive diff = the function that calls itself and constructs the patch
     for f, b, s in sites:
         root = facts.fn(f.root) or f
-        selfrec = any((callee(t) or "") == root.path for g in facts.family(ST, root.path) for _, t in g.calls())
+        selfrec = reaches_itself(facts, root.path)
         key = "site|%s" % root.short
         if not selfrec:
             ck.bad(R, key, "CopyFromPatch is constructed in %s, which is not the recursive tree diff: a copy that is not justified by a shape match of two subtrees" % f.short, f.where(s))
@@ -446,7 +486,7 @@ def rule_score_dominance(ck, facts):
 
     R = "C08.lcs"
     fs = fns(facts)
-    planners = [f for f in fs if f.kind == "fn" and any(st[KIND] == "a" and st[5][0] == "agg" and st[5][1][0] == "adt" and st[5][1][1].endswith("CopyFromPatch") for _, st in f.all_stmts()) and any((callee(t) or "") == f.path for g in facts.family(ST, f.root) for _, t in g.calls())]
+    planners = [f for f in fs if f.kind == "fn" and any(st[KIND] == "a" and st[5][0] == "agg" and st[5][1][0] == "adt" and st[5][1][1].endswith("CopyFromPatch") for _, st in f.all_stmts()) and reaches_itself(facts, f.path)]
     ck.require(R, len(planners) == 1, "anchor|planner", "the recursive function that builds the copy patches was not found")
     if len(planners) != 1:
         return
@@ -521,21 +561,25 @@ def rule_all_pairs(ck, facts):
     """the planner scores every (old child, new child) pair before it asks the LCS"""
     R = "C08.lcs"
     fs = fns(facts)
-    planners = [f for f in fs if f.kind == "fn" and any(st[KIND] == "a" and st[5][0] == "agg" and st[5][1][0] == "adt" and st[5][1][1].endswith("CopyFromPatch") for _, st in f.all_stmts()) and any((callee(t) or "") == f.path for g in facts.family(ST, f.root) for _, t in g.calls())]
+    planners = [f for f in fs if f.kind == "fn" and any(st[KIND] == "a" and st[5][0] == "agg" and st[5][1][0] == "adt" and st[5][1][1].endswith("CopyFromPatch") for _, st in f.all_stmts()) and reaches_itself(facts, f.path)]
     if len(planners) != 1:
         return  # reported by the score-dominance rule's anchor
-    fam = facts.family(ST, planners[0].root)
+    fam = recursion_members(facts, planners[0].path)
     NARROW = ("skip", "take", "step_by", "take_while", "skip_while", "map_while", "saturating_sub", "abs_diff", "windows", "chunks", "split_at")
     n = 0
     for g in fam:
         di = DefIndex(g)
 
-        def is_len(op):
-            r = di.resolve(op)
+        def is_len(op, gg=g, dd=di, depth=0):
+            r = dd.resolve(op)
             if r[0] == "call":
                 return (callee(r[1]) or "").split("::")[-1] in ("len",)
-            if r[0] == "rv" and r[1][5][0] in ("len", "ptrmeta", "un") :
+            if r[0] == "rv" and r[1][5][0] in ("len", "ptrmeta", "un"):
                 return True
+            if r[0] == "arg" and depth < 2 and gg.kind in ("fn", "assoc"):
+                # a length handed in by the caller: every call site in the crate passes a `len()`
+                sites = [(h, t) for h in fs for _, t in h.calls() if (callee(t) or "") == gg.path and len(t[5]) >= r[1]]
+                return bool(sites) and all(is_len(t[5][r[1] - 1], h, DefIndex(h), depth + 1) for h, t in sites)
             return False
 
         for b, st in g.all_stmts():
